@@ -54,6 +54,38 @@ pub fn do_send(trace: &Arc<Trace>, actor: &ActorRef<PMsg>, client: u32, seq: u64
     res
 }
 
+/// A do-nothing target for `call_and_forward`
+pub struct Sink;
+#[cfg_attr(feature = "alt", ractor::async_trait)]
+impl ractor::Actor for Sink {
+    type Msg = u64;
+    type State = ();
+    type Arguments = ();
+    async fn pre_start(&self, _: ActorRef<u64>, _: ()) -> Result<(), ractor::ActorProcessingErr> {
+        Ok(())
+    }
+}
+
+/// `call_and_forward` as a send: the request must be enqueued (or refused) by the time the function returns.
+pub fn do_forward_send(trace: &Arc<Trace>, actor: &ActorRef<PMsg>, sink: &ActorRef<u64>, client: u32, seq: u64, script: Script) -> i64 {
+    let w = Work::new(trace, client, seq, script);
+    trace.log(Ev::Call { client, op: "send", arg: seq });
+    let r = actor.call_and_forward(move |reply| PMsg::Call(w, reply), sink, |v: u64| v, None);
+    let res = match r {
+        Ok(_handle) => 1,
+        Err(MessagingErr::SendErr(PMsg::Call(back, _))) => {
+            if back.sender == client && back.seq == seq {
+                0
+            } else {
+                -1
+            }
+        }
+        Err(_) => -2,
+    };
+    trace.log(Ev::Ret { client, op: "send", arg: seq, res });
+    res
+}
+
 fn gen_script(p: &mut Prng, self_seq: &mut u64, fail_ok: bool) -> Script {
     let mut s = vec![];
     match p.below(20) {
@@ -313,6 +345,7 @@ pub fn run_one_vt(seed: u64, rep: &mut Report) {
         }
         let spec = Arc::new(spec);
         let (actor, handle) = spawn_probe(&spec, None).await.expect("spawn");
+        let (sink, sink_h) = ractor::Actor::spawn(None, Sink, ()).await.expect("sink");
         let mut tasks = vec![];
         let mut churn_actor = None;
         if deep {
@@ -333,6 +366,7 @@ pub fn run_one_vt(seed: u64, rep: &mut Report) {
         }
         for s in 0..pl.nsenders {
             let (tr, a, mut sp, m, fail_ok) = (trace.clone(), actor.clone(), p.fork(), pl.per[s as usize], pl.fail_ok);
+            let sink = sink.clone();
             tasks.push(vt::spawn_h(&format!("c02-s{s}"), async move {
                 let mut self_seq = 1_000_000 * (s + 1);
                 for j in 0..m {
@@ -342,7 +376,11 @@ pub fn run_one_vt(seed: u64, rep: &mut Report) {
                         }
                     }
                     let script = if deep { vec![] } else { gen_script(&mut sp, &mut self_seq, fail_ok) };
-                    do_send(&tr, &a, s as u32, j, script, sp.below(4));
+                    if sp.chance(1, 6) {
+                        do_forward_send(&tr, &a, &sink, s as u32, j, script);
+                    } else {
+                        do_send(&tr, &a, s as u32, j, script, sp.below(4));
+                    }
                 }
             }));
         }
@@ -394,6 +432,8 @@ pub fn run_one_vt(seed: u64, rep: &mut Report) {
             c.stop(None);
             let _ = ch.await;
         }
+        sink.stop(None);
+        let _ = sink_h.await;
         let exit_ts = crate::trace::stamp();
         vt::quiesce(2).await;
         desc.push(format!("final status {:?}", actor.get_status()));
